@@ -286,6 +286,10 @@ class C19(PropCheck):
                 raise Infra("model sender did not advertise: " + last[:100])
             pl = pad32(unhx(last.split()[0][5:]))
             out.append((f"ble chan {rf} ; rx {hx(pl)} ; read ; read", "fakeble-to-fakeble"))
+            if len(valid) % 3 == 0:
+                # a device that has itself advertised something short on this channel before it listens
+                out.append((f"ble chan {rf} ; adv {hx(rnd_bytes(rng, rng.randint(0, 3)))} 255 ; rx {hx(pl)} ; read ; read",
+                            "advertised-then-received"))
             valid.append((rf, pl))
         # wrong channel: a valid packet heard on another frequency must be rejected
         for rf, pl in rng.sample(valid, 30):
